@@ -255,6 +255,35 @@ SpTotalWhy(r) ==
   ELSE IF ~FloatNear(r.res.f, g.num, g.den) THEN "Span::total is not the exact count of the unit"
   ELSE ""
 
+SpAddWhy(r) ==
+  LET z == ZoneOf(1)
+      g == AddGoal(z, r.ref, r.a, IF r.sub = 1 THEN SpanNeg(r.b) ELSE r.b)
+      out == r.res.span
+      what == IF r.sub = 1 THEN "Span::checked_sub" ELSE "Span::checked_add"
+  IN
+  IF r.res.st = "panic" THEN what \o " panicked"
+  ELSE IF g.st = "skip" THEN ""
+  ELSE IF g.st = "err" THEN (IF r.res.st = "err" THEN "" ELSE what \o " accepted a request it must refuse")
+  ELSE IF r.res.st = "err"
+       THEN (IF g.st = "ns" /\ ~NsFits(g.n, IF g.top <= 5 THEN g.top ELSE 6) THEN ""
+             ELSE IF g.st = "pos" /\ (LET u == RUntil(z, r.ref, g.p, g.top) IN ~u.ok \/ ~SpanInLimits(u.sp)) THEN ""
+             ELSE what \o " refused a representable sum")
+  ELSE IF ~SpanInLimits(out) \/ ~OneSign(out) THEN what \o " returned a span beyond the limits or of mixed signs"
+  ELSE IF SLargest(out) > g.top THEN what \o " returned a unit larger than both operands have"
+  ELSE IF g.st = "ns" THEN (IF UniformNs(out) = g.n THEN "" ELSE what \o " is not the exact sum")
+  ELSE IF ~RSettled(z, r.ref, out) THEN ""
+  ELSE IF RAdd(z, r.ref, out) # g.p THEN what \o ": reference + result is not (reference + a) + b"
+  ELSE ""
+
+SpDurWhy(r) ==
+  LET z == ZoneOf(1)  g == DurGoal(z, r.ref, r.span) IN
+  IF r.res.st = "panic" THEN "Span::to_duration panicked"
+  ELSE IF g.st = "skip" THEN ""
+  ELSE IF g.st = "err" THEN (IF r.res.st = "err" THEN "" ELSE "Span::to_duration accepted a request it must refuse")
+  ELSE IF r.res.st = "err" THEN (IF BLe(BAbs(g.n), BMul(I64Max, BPow10_9)) THEN "Span::to_duration refused" ELSE "")
+  ELSE IF <<r.res.sec, r.res.ns>> # BDivTruncE9(g.n) THEN "Span::to_duration is not the exact time between reference and reference + span"
+  ELSE ""
+
 SpCmpWhy(r) ==
   LET z == ZoneOf(1)  g == CompareGoal(z, r.ref, r.a, r.b) IN
   IF r.res.st = "panic" THEN "Span::compare panicked"
@@ -276,6 +305,8 @@ Why(r) ==
     [] r.op = "sp_round" -> SpRoundWhy(r)
     [] r.op = "sp_total" -> SpTotalWhy(r)
     [] r.op = "sp_cmp"   -> SpCmpWhy(r)
+    [] r.op = "sp_add"   -> SpAddWhy(r)
+    [] r.op = "sp_dur"   -> SpDurWhy(r)
     [] OTHER            -> "unknown op"
 
 Init == l = 1 /\ z1 = 0 /\ z2 = 0
